@@ -1,7 +1,108 @@
-import GoZero.C16.Spec
+/-
+C16 — property theorems (statements, short proofs from the lemmas, non-vacuity examples).
+Helper lemmas: ProofsMap / ProofsQueue / ProofsSet / ProofsRW / ProofsCache.
+-/
+import GoZero.C16.ProofsSet
 namespace GoZero.C16
 
-theorem placeholder_ring_new (n : Nat) : (Ring.new n).take = [] := by
-  simp [Ring.new, Ring.take, Ring.sz]
+/-! ## Queue behaves as a FIFO -/
+
+/-- **Queue ⊑ FIFO.**  For every initial capacity `size ≥ 1` and every sequence of Put / Take / Empty, the
+results of the slice-based queue (head/tail indices modulo the buffer length, growth by `size` when
+full — also when the buffer is wrapped) are those of the list `s ↦ s ++ [x]` / `head, tail`. -/
+theorem queue_refines_fifo (size : Nat) (hs : 1 ≤ size) (ops : List QOp) :
+    Queue.run (Queue.new size) ops = Spec.Fifo.run [] ops := by
+  have := Queue.run_refines ops (Queue.new size) (Queue.inv_new size hs)
+  rwa [Queue.abs_new] at this
+
+/-- wrap-around + growth with a wrapped buffer (size 2: put 1 2, take, put 3 → full with head = 1, put 4 grows) -/
+example : Queue.run (Queue.new 2) [.put 1, .put 2, .take, .put 3, .put 4, .take, .take, .take, .take]
+    = [.unit, .unit, .val (some 1), .unit, .unit, .val (some 2), .val (some 3), .val (some 4), .val none] := by decide
+
+example : ((((Queue.new 2).put 1).put 2).take.2.put 3).head = 1 ∧ ((((Queue.new 2).put 1).put 2).take.2.put 3).tail = 1 := by
+  decide
+
+/-! ## Ring keeps the last n elements in order -/
+
+/-- **Ring = last n.**  For every `n ≥ 1` and every sequence of added values, `Take` returns exactly the
+last `n` of them (all of them while fewer than `n` were added), oldest first — including the index
+fold-back at `2n`. -/
+theorem ring_keeps_last_n_in_order (n : Nat) (hn : 1 ≤ n) (vs : List Nat) :
+    ((Ring.new n).run vs).take = vs.drop (vs.length - n) := by
+  have := (Ring.run_spec n hn vs (Ring.new n) [] (Ring.inv_new n hn) (by simp [Ring.new])
+    (by simp [Ring.new, Ring.take, Ring.sz, Spec.lastN])).1
+  simpa [Spec.lastN] using this
+
+/-- n = 3, seven additions: index has been folded back (7 ≥ 2·3) -/
+example : ((Ring.new 3).run [1, 2, 3, 4, 5, 6, 7]).take = [5, 6, 7] ∧ ((Ring.new 3).run [1, 2, 3, 4, 5, 6, 7]).index = 4 := by
+  decide
+
+/-! ## Set behaves as a mathematical set -/
+
+/-- **Set = mathematical set** (managed/typed or unmanaged): after any sequence of Add / Remove of
+elements of any dynamic types, `Contains y` is true iff the last operation on `y` was an `Add`;
+the key list has no duplicates, so `Count` is the cardinality of that set. -/
+theorem set_refines_finset (managed : Bool) (ops : List SetOp) (y : Nat × Nat) :
+    (((GSet.new managed).run ops).contains y = Spec.setMemAfter ops y)
+    ∧ ((GSet.new managed).run ops).data.Nodup
+    ∧ ((GSet.new managed).run ops).count = ((GSet.new managed).run ops).data.length
+    ∧ (y ∈ ((GSet.new managed).run ops).data ↔ Spec.setMemAfter ops y = true) := by
+  have h := GSet.run_spec ops (GSet.new managed) [] (by simp [GSet.new]) (by simp [GSet.new, Spec.setMem])
+  simp only [List.append_nil] at h
+  refine ⟨?_, h.1, rfl, h.2 y⟩
+  have h1 := GSet.contains_iff ((GSet.new managed).run ops) y
+  have h2 := h.2 y
+  unfold Spec.setMemAfter
+  cases hc : ((GSet.new managed).run ops).contains y <;> cases hm : Spec.setMem ops.reverse y <;> simp_all
+
+example : ((GSet.new true).run [.add (2, 1), .add (6, 1), .remove (2, 1), .add (2, 5)]).contains (6, 1) = true
+    ∧ ((GSet.new true).run [.add (2, 1), .add (6, 1), .remove (2, 1), .add (2, 5)]).contains (2, 1) = false
+    ∧ ((GSet.new true).run [.add (2, 1), .add (6, 1), .remove (2, 1), .add (2, 5)]).count = 2 := by decide
+
+/-! ## SafeMap behaves as a map -/
+
+/-- **SafeMap ⊑ map**, for every pair of thresholds (`maxDeletion`, `copyThreshold`) and every sequence
+of Set / Del — including the long runs of deletions that switch and merge the two generations:
+`Get k` is the value of the last `Set k` unless a `Del k` came after it. -/
+theorem safemap_refines_map (maxDel copyThr : Nat) (ops : List MapOp) (k : Nat) :
+    (SafeMap.init.run maxDel copyThr ops).get k = Spec.mapGetAfter ops k := by
+  have := (SafeMap.run_spec maxDel copyThr ops SafeMap.init [] SafeMap.inv_init (by simp [SafeMap.init, SafeMap.get, alookup, Spec.mapGet])).2 k
+  simpa [Spec.mapGetAfter] using this
+
+/-- the two generations stay key-disjoint and duplicate-free (the invariant behind the refinement) -/
+theorem safemap_generations_disjoint (maxDel copyThr : Nat) (ops : List MapOp) :
+    (SafeMap.init.run maxDel copyThr ops).Inv :=
+  (SafeMap.run_spec maxDel copyThr ops SafeMap.init [] SafeMap.inv_init (by simp [SafeMap.init, SafeMap.get, alookup, Spec.mapGet])).1
+
+/-- **`Range` enumerates the map's graph exactly once and `Size` is its cardinality.** -/
+theorem safemap_range_size (maxDel copyThr : Nat) (ops : List MapOp) :
+    let m := SafeMap.init.run maxDel copyThr ops
+    (akeys m.range).Nodup
+    ∧ (∀ k v, (k, v) ∈ m.range ↔ Spec.mapGetAfter ops k = some v)
+    ∧ m.size = m.range.length := by
+  intro m
+  have hi : m.Inv := safemap_generations_disjoint maxDel copyThr ops
+  refine ⟨m.range_nodup hi, fun k v => ?_, by simp [SafeMap.size, SafeMap.range]⟩
+  rw [mem_iff_alookup m.range (m.range_nodup hi), SafeMap.alookup_range]
+  show (SafeMap.init.run maxDel copyThr ops).get k = some v ↔ _
+  rw [safemap_refines_map]
+
+/-- the executable monitor used by the driver (one association list) computes the same function -/
+theorem map_monitor_is_map (ops : List MapOp) (k : Nat) :
+    alookup (ops.foldl Spec.alStep []) k = Spec.mapGetAfter ops k := by
+  have := (alStep_lookup ops [] [] (by simp [akeys]) (by simp [alookup, Spec.mapGet])).2 k
+  simpa [Spec.mapGetAfter] using this
+
+/-- small thresholds (2 deletions, copy below 2 keys) so that the generation switch and a merge happen in
+a short history: key 4 moves old → new, then the generations are merged, every lookup sees the latest value -/
+example : (SafeMap.init.run 2 2 [.set 1 10, .set 2 20, .set 3 30, .set 4 40, .set 5 50, .del 1, .del 2, .del 3, .set 4 41]).new = [(4, 41)]
+    ∧ (SafeMap.init.run 2 2 [.set 1 10, .set 2 20, .set 3 30, .set 4 40, .set 5 50, .del 1, .del 2, .del 3, .set 4 41]).old = [(5, 50)] := by
+  decide
+
+example : (SafeMap.init.run 2 2 [.set 1 10, .set 2 20, .set 3 30, .set 4 40, .set 5 50, .del 1, .del 2, .del 3, .set 4 41,
+      .set 6 60, .del 6]).new = []
+    ∧ (SafeMap.init.run 2 2 [.set 1 10, .set 2 20, .set 3 30, .set 4 40, .set 5 50, .del 1, .del 2, .del 3, .set 4 41,
+      .set 6 60, .del 6]).get 4 = some 41 := by
+  decide
 
 end GoZero.C16
